@@ -1311,14 +1311,16 @@ def main(tier, seed):
     nets = net_scenarios() + success_side_scenarios(quick)
     njobs = [{"id": f"net#{i // 6}", "kind": "c12.scenarios", "keep_going": True,
               "scenarios": nets[i:i + 6]} for i in range(0, len(nets), 6)]
-    # long cfg jobs first (better packing), triggers in between
+    # the absolute checks (endpoint answers, must-fail triggers) are cheap and must never be
+    # the ones a deadline on a loaded machine cuts off: they go first, one between every two
+    # of the long per-cfg jobs
     order = []
-    extra = tjobs + njobs
+    extra = njobs + tjobs
     for i, j in enumerate(jobs):
-        order.append(j)
-        if i % 2 == 0 and extra:
+        if extra:
             order.append(extra.pop(0))
-    order.extend(extra)
+        order.append(j)
+    order = extra + order
 
     agg = {"scenarios": 0, "runs": 0, "steps": 0, "faults_fired": {}, "notes": {}, "tags": {},
            "locations": set(), "per_cfg": {}, "samples": []}
